@@ -722,7 +722,7 @@ func (c *Ctx) shLiveness(w *shWorld, history *[]int, evlog *[]string,
 	if err != nil || got != tok {
 		if _, e := os.Stat(filepath.Join(w.dir, "policies", "next", "src", ".git")); e == nil {
 			return &Failure{Key: "liveness|stale-next-dir",
-				Msg: fmt.Sprintf("a killed run left policies/next with a checked-out source tree; the undisturbed run ended through 'uptodate' without compiling: 'current' holds revision %q, newest compiling revision is %q", got, tok),
+				Msg:   fmt.Sprintf("a killed run left policies/next with a checked-out source tree; the undisturbed run ended through 'uptodate' without compiling: 'current' holds revision %q, newest compiling revision is %q", got, tok),
 				Extra: ex, Log: *evlog, Input: map[string]any{"events": *evlog}}
 		}
 		return fail("liveness", fmt.Sprintf("after an undisturbed run 'current' holds revision %q, newest compiling revision is %q", got, tok), ex)
